@@ -8,6 +8,8 @@ CLAIMED = {
          'proof in Coq (induction over the splitting loop and the record list) + byte-exact correspondence + verified strict reader as oracle'),
  'C02': ('7 C02', 'Coq theorems C02_roundtrip (read_records (write_file recs) = non-empty recs) and C02_bracket (soundness of reassembly for the declarative bracket discipline); tie: K-seg/K-file correspondence, lr-tap bodies vs records read back from real files',
          'proof in Coq (parser/printer inversion, reassembly induction) + correspondence + lr-tap'),
+ 'C04': ('7 C04', 'Coq theorems C04_grammar (dec_set (enc_set s) succeeds with nothing left over and matches the set: type, name, template labels, per object identity and per attribute ABSATR or count/code/units/values), C04_attribute, C04_value over Model/Eflr.v and the strict component reader Model/EflrReader.v, by structural induction over objects and attributes; tie: K-attr correspondence (Python-side attribute state -> model encoder == tapped EFLR body) and strict reader judgement of every tapped EFLR body, over random specifications of all 22 object types',
+         'proof in Coq (parser/printer inversion for the component grammar) + byte-exact correspondence + verified strict component reader as oracle'),
  'C06': ('7 C06', 'Coq theorems C06_roundtrip_<code> and C06_domain_<code> for all 15 codes over their whole value domain (lia with euclidean division); tie: K-prim correspondence on range edges, form boundaries and random values, decoder judgement of every emitted byte string',
          'proof in Coq (lia over Z, per-code round trip and exact domain) + correspondence'),
  'C10': ('7 C10', 'Coq theorems C10_out_invisible / C10_file (buffer invariant by induction over the record list: final file, reported total, every flush snapshot is label ++ prefix of records), C10_in_invisible (chunking is the identity); tie: every output chunk size vrl..file+1 with flush-tap snapshots, input chunk sweep',
